@@ -254,6 +254,9 @@ def mk_instance(mod, name, tag, kind_shape='none'):
             o.kind = mk_str(c.fresh(S, 'kind_' + tag))
         else:
             o.kind = mk_instance('symbols', 'Scalar', 'kind_of_' + tag)
+    if any(k.__name__ in ('TypedSymbol', 'MetaSymbol') for k in cls.__mro__):
+        # TypedSymbol.__init__ stores the case_sensitive marker (MetaSymbol forwards its symbol's): an arbitrary flag
+        o.case_sensitive = mk_bool(c.fresh(z3.BoolSort(), 'case_sensitive_' + tag))
     if any(k.__name__ == 'Slice' for k in cls.__mro__):
         o.children = (ChildTok(c.fresh(z3.IntSort(), 'lower_' + tag)), ChildTok(c.fresh(z3.IntSort(), 'upper_' + tag)), None)
     if any(k.__name__ == 'QuotientBase' for k in cls.__mro__):
